@@ -2,6 +2,7 @@
 # Regenerates MANIFEST.json from the table below (kept in one place so it stays valid).
 import json, subprocess
 claimed = {
+ "C19": ("exhaustive enumeration of argument vectors (length 0..3/4 over an 11-token alphabet of path situations and flags) spawned as the real command in prepared directories, against a model of the CLI contract; every Shift_JIS/UTF-8 character class in comments; CLI vs API on the program pool", "7/C19"),
  "C08": ("choice-tree DFS over code-size classes x every ordered subset of GLOBAL labels x placement x extras x naming patterns x FILE lengths; independent strict COFF reader + debug/pe", "7/C08-C09"),
  "C09": ("same exploration as C08; .text vs flat binary of the same source, symbol-table model (once each, class/section/value by sentinel-located offset, order, long names), .file record", "7/C08-C09"),
  "C10": ("explicit-state search over HISTORIES of assemble/reassemble operations on live worker processes: all length-1 and length-2 histories from a fresh process (BFS, replay on fresh workers), all ordered triples as de Bruijn windows; invariant per transition vs fresh-process reference + global-state digests", "7/C10"),
@@ -22,6 +23,7 @@ claimed = {
  "C05": ("choice-tree DFS over DB/DW/DD operand lists, RESB, ALIGNB x residue x ORG, non-emitting statements; directive reference model", "7/C05"),
 }
 texts = {
+ "C19": "Every argument vector up to length 3 (thorough: 4) over source/destination situations (valid, missing, unparsable, empty, directory, new, existing, missing directory, /dev/full) and flags is run as the real gosk command in a freshly prepared directory - the file-system answers are enumerated like injected faults - and judged against a model of the contract (exit 0/16/17/non-zero, line:col on parse errors, output file == API bytes on success, never a partial image after a failure). Comments containing each Shift_JIS double-byte code (incl. trail bytes 5C/7C), half-width kana, 2- and 3-byte UTF-8 characters, mid-comment and directly before the newline, must not change the output.",
  "C08": "131040 COFF programs (thorough; 4680 quick) are assembled and every object is parsed by an independent strict COFF reader that bounds-checks every offset and count (header, three section headers, symbol records incl. aux, string table length and long-name offsets) and by Go's debug/pe.",
  "C09": "For the same programs: .text must be byte-identical to the flat binary of the source without [FORMAT]; each defined GLOBAL name exactly once as class-2 symbol of section 1 whose value is the sentinel-located offset of its label; long names through the string table; defined symbols in address order, undefined last; the [FILE] name in the .file aux record.",
  "C10": "Operations are assemble(program, destination state) for 12 programs x {absent, longer leftover file, shorter leftover file} and re-assemble-the-same-parsed-tree x 3 (39 operations). Every history of length 1 and 2 from a fresh process (quick: pairs over 15 operations) and, in the thorough tier, every ordered triple as a window of a de Bruijn sequence run on live workers; after every operation the output and diagnostics must equal those of the program as the only operation of a fresh process, and digests of the process-global tables and of the parsed tree must be unchanged.",
@@ -42,6 +44,7 @@ texts = {
  "C05": "Every operand list up to the stated length over a 27-item boundary alphabet (and rotations up to length 64), every RESB/ALIGNB/residue/ORG combination and every non-emitting statement is assembled by the real pipeline and compared byte for byte with a directive model; the location counter is compared with the emitted length. Exhaustive within the stated bounds.",
 }
 notes = {
+ "C19": "Trusted: the contract model (cliref, ~60 lines). /dev/full is used as a destination only (as a source it is an endless stream). Situations the property leaves undefined are spawned for crash-freedom only.",
  "C08": "Trusted: the strict COFF reader (written from the specification), debug/pe as a second reader.",
  "C09": "Known finding: [FILE] names longer than 18 bytes are truncated. Fixed: duplicate GLOBAL names.",
  "C10": "Map iteration order and the clock are not controlled choice points (stated in the evidence); 5 fresh CLI processes per program are an auxiliary smoke test. Global state is observed through overlay-injected read-only dumpers; if they fail to build against an edited tree the check falls back to output comparison only.",
